@@ -32,33 +32,74 @@ func v3Stages(v string, match string) []stage {
 		}
 		return nil
 	}
-	envS2 := func(fr *FuncRun, sc *stageCtx) []CaseInst {
+	// zeroPC: the path condition of EnvironmentalScore's "return 0" (modified impact <= 0), the second
+	// cut of the outer stage; nil when the body does not have exactly one such return.
+	zeroPC := func(fr *FuncRun) *Term {
+		var z *Term
+		for _, re := range fr.Ex.rets {
+			if len(re.vals) != 1 {
+				return nil
+			}
+			t, ok := re.vals[0].(*Term)
+			if !ok {
+				return nil
+			}
+			if t.Op == "fp" && t.F == 0 && !re.pc.IsTrue() && !re.pc.IsFalse() {
+				if z != nil {
+					return nil
+				}
+				z = re.pc
+			}
+		}
+		return z
+	}
+	envS2x := func(fr *FuncRun, sc *stageCtx, open bool) []CaseInst {
 		var out []CaseInst
 		inner := specApp("envInner"+v+"K", fr)
-		// two representatives of the metrics the outer stage does not enumerate: an object with
-		// non-zero modified impact (all codes 0) and one on the zero-impact branch (C = I = A = N)
-		fam := objInstsGround(fr, sc, v3Temporal, nil)
-		for _, z := range objInstsGround(fr, sc, v3Temporal, fixedAt(sc.rp, []string{"C", "I", "A"}, "N")) {
-			z.Label += "/zero-impact"
-			fam = append(fam, z)
+		zspec := specApp("envZero"+v, fr)
+		zc := zeroPC(fr)
+		if !open {
+			zc = nil
 		}
-		for _, base := range fam {
-			for k := 0; k <= 100; k++ {
-				sub := map[*Term]*Term{}
-				for a, b := range base.Sub {
-					sub[a] = b
-				}
-				for _, c := range sc.calls["roundup"] {
-					if s, ok := c.sub.(*Term); ok {
-						sub[s] = tenthOf(k)
+		type famT struct {
+			insts []CaseInst
+			z     *Term
+			tag   string
+		}
+		var fams []famT
+		if zc != nil {
+			// both cuts: (zero flag, inner value) x E x RL x RC, every other bit of the object open
+			fams = append(fams, famT{objInsts(fr, sc, v3Temporal, nil), False, ""}, famT{objInsts(fr, sc, v3Temporal, nil), True, "/zero-impact"})
+		} else {
+			// fallback: two representatives of the metrics the outer stage does not enumerate
+			fams = append(fams, famT{objInstsGround(fr, sc, v3Temporal, nil), nil, ""},
+				famT{objInstsGround(fr, sc, v3Temporal, fixedAt(sc.rp, []string{"C", "I", "A"}, "N")), nil, "/zero-impact"})
+		}
+		for _, fam := range fams {
+			for _, base := range fam.insts {
+				for k := 0; k <= 100; k++ {
+					sub := map[*Term]*Term{}
+					for a, b := range base.Sub {
+						sub[a] = b
 					}
+					for _, c := range sc.calls["roundup"] {
+						if s, ok := c.sub.(*Term); ok {
+							sub[s] = tenthOf(k)
+						}
+					}
+					sub[inner] = IntLit(int64(k))
+					if fam.z != nil {
+						sub[zc] = fam.z
+						sub[zspec] = fam.z
+					}
+					out = append(out, CaseInst{Sub: sub, Label: fmt.Sprintf("inner=%d.%d/%s%s", k/10, k%10, base.Label, fam.tag)})
 				}
-				sub[inner] = IntLit(int64(k))
-				out = append(out, CaseInst{Sub: sub, Label: fmt.Sprintf("inner=%d.%d/%s", k/10, k%10, base.Label)})
 			}
 		}
 		return out
 	}
+	envS2 := func(fr *FuncRun, sc *stageCtx) []CaseInst { return envS2x(fr, sc, true) }
+	envS2ground := func(fr *FuncRun, sc *stageCtx) []CaseInst { return envS2x(fr, sc, false) }
 	envS1 := func(fr *FuncRun, sc *stageCtx) []CaseInst {
 		var out []CaseInst
 		inner := specApp("envInner"+v+"K", fr)
@@ -83,6 +124,10 @@ func v3Stages(v string, match string) []stage {
 				gs = append(gs, CaseGoal{Name: fmt.Sprintf("gocvss%s.(%s).EnvironmentalScore/cut/inner_roundup#%d_equals_spec", v, T, c.ord), Kind: "cut",
 					Cond: Implies(c.pc, App("fp.eq", SBool, c.res.(*Term), App("tenth", SF64, inner)))})
 			}
+		}
+		if zc := zeroPC(fr); zc != nil {
+			gs = append(gs, CaseGoal{Name: fmt.Sprintf("gocvss%s.(%s).EnvironmentalScore/cut/zero_impact_flag_equals_spec", v, T), Kind: "cut",
+				Cond: Eq(zc, specApp("envZero"+v, fr))})
 		}
 		return nil, gs
 	}
@@ -115,8 +160,10 @@ func v3Stages(v string, match string) []stage {
 				}
 				return out
 			}},
-		{Name: "cut-inner-x-temporal", Pkg: v, Func: "(" + T + ").EnvironmentalScore", Match: match, Opts: RunOpts{OnCall: cutHook},
-			Space: "inner Roundup value 0.0..10.0 (101 tenths, cut) x E x RL x RC x {non-zero impact, zero impact} = 20200", Insts: envS2},
+		{Name: "cut-inner-x-temporal", Pkg: v, Func: "(" + T + ").EnvironmentalScore", Match: match, Opts: RunOpts{OnCall: cutHook}, NoSafetyGoals: true,
+			Space: "zero-impact flag (cut) x inner Roundup value 0.0..10.0 (101 tenths, cut) x E x RL x RC = 20200, all other bits of the object open", Insts: envS2},
+		{Name: "cut-inner-x-temporal/safety", Pkg: v, Func: "(" + T + ").EnvironmentalScore", Match: `^$`, Opts: RunOpts{OnCall: cutHook},
+			Space: "float-to-int conversions of the outer Roundup: inner value (101 tenths, cut) x E x RL x RC on two representative objects (non-zero / zero impact); the inner stage's conversions are goals of the thorough stage", Insts: envS2ground},
 		{Name: "all-effective-x-CR,IR,AR", Pkg: v, Func: "(" + T + ").EnvironmentalScore", Match: match, Opts: RunOpts{OnCall: cutHook}, Tier: "thorough",
 			Space: "8 effective base metrics x CR x IR x AR = 165888 (Modified metrics X, lifted by C10)", Insts: envS1, Extra: envS1Extra},
 	}
